@@ -278,7 +278,7 @@ class M(Hooks):
 
 def budget(tier):
     if tier == 'quick':
-        return dict(examples=4000, wall=100)
+        return dict(examples=6000, wall=100)
     return dict(examples=120000, wall=1500)
 
 
